@@ -73,7 +73,7 @@ func c16r1(c *Check) {
 	for _, w := range [][2]string{{"*GrafanaNet", "run"}, {"*KafkaMdm", "run"}} {
 		fn := c.P.Func("route", w[0], w[1])
 		n, badW := 0, ""
-		for _, f := range withAnons(fn) {
+		for _, f := range workerFuncs(c.P, fn) {
 			var pm *ssa.Call
 			allInstrs(f, func(in ssa.Instruction) {
 				if call, ok := in.(*ssa.Call); ok && calleeName(call.Common()) == nPM {
@@ -398,6 +398,47 @@ func c16r3(c *Check) {
 		why := loopCarried(c.P, prioStore.Val, l, prioStore)
 		c.Judge(why == "", "persister.ReadWhisperSchemas priority per section", c.At(prioStore), "computed from this section's `priority` setting (default 0) and its position only", "a section's priority depends on an earlier section: "+why+" — a section without `priority` inherits the last one given, so the rule order (first match wins) is not the documented one")
 	}
+	// ini values are taken as written: the key/value split is applied to the very line that the
+	// comment and section tests looked at (nothing is cut out of it first)
+	pif := c.P.Func("persister", "", "parseIniFile")
+	var splitArg ssa.Value
+	var splitAt ssa.Instruction
+	lineVals := map[ssa.Value]bool{}
+	for _, f := range samePkgCallees(c.P, pif) {
+		allInstrs(f, func(in ssa.Instruction) {
+			if call, ok := in.(*ssa.Call); ok && calleeName(call.Common()) == "strings.SplitN" {
+				if sep, _ := constString(call.Call.Args[1]); sep == "=" {
+					splitArg, splitAt = call.Call.Args[0], in
+				}
+			}
+		})
+	}
+	allInstrs(pif, func(in ssa.Instruction) {
+		// operands of first-byte tests: line[0] == ';' etc.
+		switch x := in.(type) {
+		case *ssa.Index:
+			if k, ok := constInt(x.Index); ok && k == 0 {
+				lineVals[x.X] = true
+			}
+		case *ssa.Lookup:
+			if k, ok := constInt(x.Index); ok && k == 0 {
+				lineVals[x.X] = true
+			}
+		case *ssa.Call:
+			// a helper that is handed the line's first byte / the line
+			for _, a := range x.Call.Args {
+				if ix, ok := a.(*ssa.Index); ok {
+					if k, ok := constInt(ix.Index); ok && k == 0 {
+						lineVals[ix.X] = true
+					}
+				}
+			}
+		}
+	})
+	if splitAt == nil {
+		anchorFail("parseIniFile: key = value split not found")
+	}
+	c.Judge(lineVals[splitArg], "persister.parseIniFile takes values as written", c.At(splitAt), "SplitN(line, \"=\", 2) on the trimmed line itself", "the line is edited before it is split into key and value (e.g. a trailing `;…` / `#…` is cut off): a storage-schemas pattern that contains ';' (tag matching) or '#' is silently truncated and matches series it should not")
 	c.Judge(okFirst, "persister.WhisperSchemas.Match returns at the first matching schema", c.AtFn(m), "return inside the range loop over the (sorted) schemas", "Match does not stop at the first matching rule in slice order (e.g. it keeps scanning and returns the last match)")
 	rs := c.P.Func("persister", "", "ReadWhisperSchemas")
 	sorted := false
